@@ -298,7 +298,7 @@ def explore(item, tier, seed):
         step = 1 if tier == "thorough" else 3
         import itertools as _it
 
-        for idx, labs, pr, m in _it.chain(F.family("quick"), F.view_family()):
+        for idx, labs, pr, m in _it.chain(F.family("quick"), F.view_family(), F.scaled_family()):
             if idx % step == 0 and (idx // step) % n == i:
                 record(check_solution(pr, m, (), rep), {"family": "lp", "label": labs, "problem": pr, "method": m})
                 if rep.states % 301 == 1:
